@@ -1,11 +1,14 @@
 import Vflow.Model.Flow
 import Vflow.Model.Text
+import Vflow.Model.JsonOut
 /-!
 # Model of the template-cache file: `MemCache.Dump` and `GetCache` (after the F9 repair)
 
 `dumpJson` renders the cache exactly as `json.Marshal(memCacheDisk{m, shardNo})` does (32 shards in
-order, each `{"Templates":{…}}` with the 32-bit keys as decimal strings in *string* order, nil
-slices as `null`; the timestamp is canonicalised to 0 on both sides of the correspondence).
+order, each `{"Templates":{…}}` with that shard's key texts — since the K1 repair `map[string]Data`: the hex text of
+address and template id for entries learnt by decoding, any string for entries that came from a file — in *string*
+order, escaped as `encoding/json` escapes a string (`escString`), nil slices as `null`; the timestamp is canonicalised
+to 0 on both sides of the correspondence).
 `Doc` is what `json.Unmarshal` can produce for `memCacheDisk` (absent / null shards, null maps);
 `loadDoc` is the validation `GetCache` applies to it.  The reflection-driven binding of octets to
 `Doc` is library code and is not modelled: the harness obtains the `Doc` from `encoding/json` itself.
@@ -16,8 +19,9 @@ open Vflow
 def shardNo : Nat := 32
 
 /-- one shard of the document: `none` = JSON null / absent pointer; `some none` = shard without a
-`Templates` map (nil map); `some (some l)` = the entries in document order (later duplicates win) -/
-abbrev DocShard := Option (Option (List (Nat × Template)))
+`Templates` map (nil map); `some (some l)` = the entries (key text as `json.Unmarshal` read it, template) in
+document order (later duplicates win) -/
+abbrev DocShard := Option (Option (List (Bytes × Template)))
 
 structure Doc where
   shardNo : Int
@@ -28,11 +32,20 @@ deriving Repr
 def docUsable (d : Doc) : Bool :=
   d.shardNo == 32 && d.shards.length == 32 && d.shards.all (fun s => match s with | some (some _) => true | _ => false)
 
-/-- entries of a usable document, flattened (later entries of a shard override earlier ones with the same key) -/
-def docEntries (d : Doc) : List (Nat × Template) :=
-  d.shards.flatMap fun s => match s with | some (some l) => l | _ => []
+/-- the entries of the `i`-th shard of a document, each under (its shard, its key text) -/
+def shardEntries (i : Nat) : DocShard → List (CKey × Template)
+  | some (some l) => l.map fun e => ((i, e.1), e.2)
+  | _ => []
 
-def insertKey (c : Cache) (k : Nat) (t : Template) : Cache := (k, t) :: c.filter (fun e => e.1 ≠ k)
+def docEntriesFrom (i : Nat) : List DocShard → List (CKey × Template)
+  | [] => []
+  | s :: ss => shardEntries i s ++ docEntriesFrom (i + 1) ss
+
+/-- entries of a usable document, flattened (later entries of a shard override earlier ones with the same key): an
+entry stays in the shard the document has it in, whatever its key text — `GetCache` uses the decoded maps as they are -/
+def docEntries (d : Doc) : List (CKey × Template) := docEntriesFrom 0 d.shards
+
+def insertKey (c : Cache) (k : CKey) (t : Template) : Cache := (k, t) :: c.filter (fun e => e.1 ≠ k)
 
 /-- `GetCache` on a parsed document: the document's cache if it is usable, a fresh cache otherwise.
 (`none` = file unreadable, or its content rejected by `json.Unmarshal`.) -/
@@ -58,26 +71,26 @@ def templateJson (ipfix : Bool) (t : Template) : Bytes :=
     kw (str "FieldSpecifiers") ++ specsJson ipfix t.fields ++ [44] ++ kw (str "ScopeFieldCount") ++ natDigits t.scnt ++ [44] ++
     kw (str "ScopeFieldSpecifiers") ++ specsJson ipfix t.scope ++ [125]
 
-def entryJson (ipfix : Bool) (e : Nat × Template) : Bytes :=
-  34 :: natDigits e.1 ++ [34, 58] ++ [123] ++ kw (str "Template") ++ templateJson ipfix e.2 ++ [44] ++
+def entryJson (ipfix : Bool) (e : CKey × Template) : Bytes :=
+  34 :: escString e.1.2 ++ [34, 58] ++ [123] ++ kw (str "Template") ++ templateJson ipfix e.2 ++ [44] ++
     kw (str "Timestamp") ++ [48] ++ [125]
 
-/-- lexicographic order on octet strings (encoding/json sorts map keys as strings) -/
+/-- lexicographic order on octet strings (encoding/json sorts map keys as strings, before escaping them) -/
 def bytesLt : Bytes → Bytes → Bool
   | [], [] => false
   | [], _ => true
   | _, [] => false
   | a :: as, b :: bs => a < b || (a == b && bytesLt as bs)
 
-def insertSorted (e : Nat × Template) : List (Nat × Template) → List (Nat × Template)
+def insertSorted (e : CKey × Template) : List (CKey × Template) → List (CKey × Template)
   | [] => [e]
-  | x :: xs => if bytesLt (natDigits e.1) (natDigits x.1) then e :: x :: xs else x :: insertSorted e xs
+  | x :: xs => if bytesLt e.1.2 x.1.2 then e :: x :: xs else x :: insertSorted e xs
 
-def sortEntries (l : List (Nat × Template)) : List (Nat × Template) := l.foldr insertSorted []
+def sortEntries (l : List (CKey × Template)) : List (CKey × Template) := l.foldr insertSorted []
 
 def shardJson (ipfix : Bool) (c : Cache) (i : Nat) : Bytes :=
   [123] ++ kw (str "Templates") ++ [123] ++
-    joinSep 44 ((sortEntries (c.filter fun e => e.1 % 32 = i)).map (entryJson ipfix)) ++ [125, 125]
+    joinSep 44 ((sortEntries (c.filter fun e => e.1.1 = i)).map (entryJson ipfix)) ++ [125, 125]
 
 /-- `json.Marshal(memCacheDisk{m, 32})` with timestamps zeroed -/
 def dumpJson (ipfix : Bool) (c : Cache) : Bytes :=
@@ -92,21 +105,21 @@ an arbitrary timestamp per entry (`ts key`, any integer — a clock before 1970 
 crash-point theorems of C11 are about these files.  `dumpJsonTs_zero` (in `Vflow.Proofs.JsonPrefix`):
 `dumpJson ipfix c = dumpJsonTs ipfix (fun _ => 0) c`. -/
 
-def entryJsonTs (ipfix : Bool) (ts : Nat → Int) (e : Nat × Template) : Bytes :=
-  34 :: natDigits e.1 ++ [34, 58] ++ [123] ++ kw (str "Template") ++ templateJson ipfix e.2 ++ [44] ++
+def entryJsonTs (ipfix : Bool) (ts : CKey → Int) (e : CKey × Template) : Bytes :=
+  34 :: escString e.1.2 ++ [34, 58] ++ [123] ++ kw (str "Template") ++ templateJson ipfix e.2 ++ [44] ++
     kw (str "Timestamp") ++ intDigits (ts e.1) ++ [125]
 
-def shardJsonTs (ipfix : Bool) (ts : Nat → Int) (c : Cache) (i : Nat) : Bytes :=
+def shardJsonTs (ipfix : Bool) (ts : CKey → Int) (c : Cache) (i : Nat) : Bytes :=
   [123] ++ kw (str "Templates") ++ [123] ++
-    joinSep 44 ((sortEntries (c.filter fun e => e.1 % 32 = i)).map (entryJsonTs ipfix ts)) ++ [125, 125]
+    joinSep 44 ((sortEntries (c.filter fun e => e.1.1 = i)).map (entryJsonTs ipfix ts)) ++ [125, 125]
 
 /-- `json.Marshal(memCacheDisk{m, 32})` where the entry with key `k` carries the timestamp `ts k` -/
-def dumpJsonTs (ipfix : Bool) (ts : Nat → Int) (c : Cache) : Bytes :=
+def dumpJsonTs (ipfix : Bool) (ts : CKey → Int) (c : Cache) : Bytes :=
   [123] ++ kw (str "Cache") ++ [91] ++ joinSep 44 ((List.range 32).map (shardJsonTs ipfix ts c)) ++ [93, 44] ++
     kw (str "ShardNo") ++ str "32" ++ [125]
 
 /-- the document `json.Unmarshal` produces for a dump (`docOf`): used to state save/load identity -/
 def docOf (c : Cache) : Doc :=
-  ⟨32, (List.range 32).map fun i => some (some (sortEntries (c.filter fun e => e.1 % 32 = i)))⟩
+  ⟨32, (List.range 32).map fun i => some (some ((sortEntries (c.filter fun e => e.1.1 = i)).map fun e => (e.1.2, e.2)))⟩
 
 end Vflow.CacheFile
